@@ -45,6 +45,15 @@ func receiverVariant(t *rapid.T, class string) string {
 // over: all routes (environment-valid or not), internal recipients including the orbiter account
 // itself, fee recipients of every class, all denominations and amount classes.
 func genBroadTransfer(t *rapid.T, w *world.World) kit.Transfer {
+	tr := genBroadTransferNoPassthrough(t, w)
+	if kit.Chance(t, "passthrough", 15) {
+		// refused unless an earlier UpdateParams raised the limit (histories do that)
+		tr.Route.Passthrough = make([]byte, pick(t, "passthrough/len", []int{1, 2, 8, 64, 1001}))
+	}
+	return tr
+}
+
+func genBroadTransferNoPassthrough(t *rapid.T, w *world.World) kit.Transfer {
 	return kit.GenTransfer(t, w, kit.TransferOpt{
 		Route: kit.RouteOpt{
 			EnvValid:        chance(t, "envvalid", 85),
